@@ -69,14 +69,6 @@ TUnset == IsEv("Unset") /\ Unset(Trace[l].t, Trace[l].req) /\ MatchReq /\ Match
 TGet == IsEv("Get") /\ Get(Trace[l].t, Trace[l].req) /\ MatchReq /\ Match
 TCommit == IsEv("Commit") /\ Commit(Trace[l].t) /\ last'.res = FromR(Trace[l].res) /\ Match
 
-\* View.Set did not return (driver watchdog).  The model says this request is one to be rejected as a bad
-\* request and nothing changes; the non-termination itself is reported by props/_registryview.py.  The driver
-\* abandons the world afterwards (next line is a Reset).
-THang == /\ IsEv("Hang")
-         /\ open[Trace[l].t]
-         /\ ViewSet(Trace[l].req, FromJ(Trace[l].val)).res = BadReq
-         /\ UNCHANGED vars
-
 \* state level only: SetViaView / GetViaView drop their transaction when they return
 TEnd == /\ IsEv("End")
         /\ open[Trace[l].t]
@@ -87,15 +79,13 @@ TEnd == /\ IsEv("End")
         /\ last' = [op |-> "end", t |-> Trace[l].t]
         /\ UNCHANGED <<view, viewdef, stored, pristine, nops>>
         /\ Match
-\* state level only: a request on ANOTHER registry of the same account.  Nothing of this registry may move;
-\* that is checked directly on the logged bytes of both registries by props/_registryview.py (it is the
-\* statement itself), so here the logged stored databag is simply taken over, which lets the validation of
-\* the following requests continue from the real stored data.
+\* state level only: a request on ANOTHER registry of the same account: nothing of this registry may move
+\* (the logged stored databag of this registry must still be the spec's).
 TOther == /\ IsEv("Other")
           /\ last' = [op |-> "other"]
-          /\ stored' = FromJ(Trace[l].st.stored)
           /\ \A t \in Txns : ~open[t]
-          /\ UNCHANGED <<view, viewdef, open, pristine, deltas, wpaths, nops, mon>>
+          /\ UNCHANGED <<view, viewdef, stored, open, pristine, deltas, wpaths, nops, mon>>
+          /\ Match
 
 TInit == /\ l = 1
          /\ viewdef = <<>> /\ view = <<>>       \* the first line is a Reset that installs the view
@@ -107,10 +97,10 @@ TInit == /\ l = 1
          /\ nops = [t \in Txns |-> 0]
          /\ mon = AllOk
          /\ last = [op |-> "init"]
-TNext == TReset \/ TBegin \/ TSet \/ TUnset \/ TGet \/ TCommit \/ TEnd \/ TOther \/ THang
+TNext == TReset \/ TBegin \/ TSet \/ TUnset \/ TGet \/ TCommit \/ TEnd \/ TOther
 
 IsReset == l <= Len(Trace) /\ Trace[l].ev = "Reset"
-TraceRejected == [][IsReset \/ (l <= Len(Trace) /\ Trace[l].ev = "Other") \/ RejectedStep]_<<vars, l>>
+TraceRejected == [][IsReset \/ RejectedStep]_<<vars, l>>
 TraceIsolation == [][IsReset \/ (l <= Len(Trace) /\ Trace[l].ev = "End") \/ IsolationStep]_<<vars, l>>
 
 Accepted == TLCGet("stats").diameter - 1 = Len(Trace)
